@@ -48,7 +48,12 @@ def assemble(item, out_dir, tag):
                 from flipjump.assembler import assembler
                 from flipjump.fjm.fjm_writer import Writer
                 writer = Writer(out, item['w'], FJMVersion(item.get('version', 3)))
-                assembler.assemble([(f'f{k + 1}', Path(f)) for k, f in enumerate(item['files'])], item['w'], writer,
+                tuples = []
+                if item.get('with_stl_tuples'):
+                    from flipjump.utils.functions import get_file_tuples
+                    tuples = get_file_tuples([], no_stl=False)     # (s1, <stl file>), ... as the quickstart functions build them
+                names = item.get('short_names') or [f'f{k + 1}' for k in range(len(item['files']))]
+                assembler.assemble(tuples + [(names[k], Path(f)) for k, f in enumerate(item['files'])], item['w'], writer,
                                    warning_as_errors=item.get('werror', True), debugging_file_path=dbg, print_time=False, **kw)
             else:
                 flipjump.assemble([Path(f) for f in item['files']], out, memory_width=item['w'], use_stl=item['stl'],
@@ -290,6 +295,32 @@ def run_shard(spec: Dict[str, Any], journal: Any) -> Dict[str, Any]:
             prelude.write_text('// a file of comments only\n\n')
             history.append(dict(probe, files=[str(prelude)] + list(probe['files']), name='same-file-second-in-the-list'))
             judge.count('targeted/same-file-under-another-short-name')
+        elif 0.54 <= r < 0.60:
+            # an expression deeper than the default depth allows (refused in a fresh process), right after a call that asked for a
+            # much larger depth and FAILED (or succeeded): what the earlier call asked for is its own business
+            too_deep = scratch / 'too_deep.fj'
+            nesting = rng.choice([600, 700, 900])
+            too_deep.write_text('td:;' + '(1+' * nesting + 'td' + ')' * nesting + f' - {nesting}\n')
+            probe_src = {'files': [str(too_deep)], 'w': 64, 'stl': False, 'name': 'expression-deeper-than-the-default-depth'}
+            probe = dict(probe_src, werror=True, version=rng.choice([1, 3]))
+            failing = scratch / 'fails_at_large_depth.fj'
+            failing.write_text(rng.choice([';never_declared_label_x\n', 'def d {\n  d\n}\n;\nd\n', ';(\n', ';\n', 'x:\nx:\n', ';1/0\n', 'nomacro 5\n']))
+            history.append({'files': [str(failing)], 'w': rng.choice([16, 64]), 'stl': False, 'werror': True, 'name': 'call-with-a-large-depth',
+                            'max_recursion_depth': rng.choice([3000, 5000, 8000])})
+            judge.count('targeted/too-deep-probe-after-a-large-depth-call')
+        elif 0.60 <= r < 0.66:
+            # a file list in which a user file repeats the short name of a library file (refused), after the library was assembled
+            # in this process (the library prefix may come from the parse cache the second time)
+            user = scratch / 'repeats_a_short_name.fj'
+            user.write_text('stl.startup\nstl.loop\n')
+            w, werror = rng.choice([64, 32]), rng.random() < 0.5
+            probe_src = {'files': [str(user)], 'w': w, 'stl': True, 'name': 'user-file-named-like-a-library-file'}
+            probe = dict(probe_src, werror=werror, version=rng.choice([1, 3]), low_level=True, with_stl_tuples=True,
+                         short_names=[rng.choice(['s1', 's2', 's5'])])
+            history.append(dict(rng.choice([src for src in sources if src['stl'] and src['w'] == w]), werror=werror, version=1))
+            if rng.random() < 0.5:
+                history.append(dict(history[-1]))
+            judge.count('targeted/repeated-short-name-after-the-library-was-cached')
         elif r < 0.38 and 'seven-segments' in by_name:
             # a program with many segments (many assembler-declared labels), assembled under another string-hash seed
             probe = dict(by_name['seven-segments'], werror=True, version=rng.choice([1, 3]))
